@@ -143,6 +143,11 @@ def body(ctx, c):
     except (ZHITError, ValueError) as e:
         from vlib.runner import innermost_is_raise_in_lib
 
+        if isinstance(e, ZHITError) and "Unsupported window" in str(e):
+            # the documented named windows (scipy.signal.windows functions that need no extra argument) must exist
+            ctx.fail("named-window-available", c, f"window {c['window']!r} is refused: {str(e)[:120]}")
+            ctx.record(c, False, labels, "window refused")
+            return
         if isinstance(e, ZHITError) or innermost_is_raise_in_lib(e):
             ctx.record(c, False, labels, "refused: " + type(e).__name__)
             return
